@@ -34,7 +34,7 @@ ASSUMPTIONS = [
 
 
 def examples(tier):
-    return 480 if tier == "quick" else 6000
+    return 1440 if tier == "quick" else 12000
 
 
 @st.composite
